@@ -1,6 +1,6 @@
 """C12: minifying never runs code taken from the input."""
 import io, json, subprocess, tokenize, itertools, collections, sys, os
-from harness import common
+from harness import common, fstr
 
 TRUSTED = [
     'Coq 8.16.1 kernel; every C12 theorem closed under the global context',
@@ -92,6 +92,7 @@ def programs(r, tier):
     progs.append('x = 1e999 + 1j\ny = 1e999 * 1j\nz = (1e999 - 1e999) * 2\n')
     # names next to literals must never be evaluated
     progs.append("import os\nx = 1 + os.getpid() + 2 * 3\ny = 'a' + str(1 + 1)\nz = len('abc') + 1\nw = (1).__class__ + 2\n")
+    progs += fstr.sources(r, 100 if tier == 'quick' else 1500)
     return [p for p in progs if p != 'v = 2\n']
 
 
